@@ -175,6 +175,20 @@ def c16():
                                    setup=[{"op": "set", "recs": old}, {"op": "flush"}], tasks=tasks, schedule=list(perm) + [1, 3, 4] * 6, post=True))
                     break
     chk.cov["concurrent_fill_race_runs"] = len(bs) - nb0
+    # a database answer in flight across a FLUSH: another instance writes the key, this instance flushes its cache
+    # (as the change poller does), then the held-back answer arrives - it must not be cached (the flush moved the generation)
+    export_storage(chk, "MCStorage_flushfill.cfg")
+    vacuity_guard(chk, "MCStorage_flushfill_pinned.cfg", "a flush leaves the write generation unchanged")
+    nb1 = len(bs)
+    for (key, old, new) in keysets[:2]:
+        for nread in (1, 2):
+            for sched in ([1, 1, 2, 1], [1, 1, 2, 1, 4, 4, 4, 4], [1, 1, 4, 4, 2, 1, 4, 4], [2, 1, 1, 1], [1, 1, 1, 2]):
+                tasks = [{"pid": 1, "ops": [{"op": "get", "key": key}]}, {"pid": 2, "ops": [{"op": "ext_set", "recs": new}, {"op": "flush"}]}]
+                if nread == 2:
+                    tasks.append({"pid": 4, "ops": [{"op": "get", "key": key}, {"op": "get", "key": key}]})
+                bs.append(dict(id=len(bs) + 1, cache="default", users=u["users"], epochs=u["epochs"], versions=u["versions"], nodes=u["nodes"],
+                               setup=[{"op": "set", "recs": old}, {"op": "flush"}], tasks=tasks, schedule=sched + [1, 2, 4] * 6, post=True, start_gate=True))
+    chk.cov["concurrent_flush_fill_race_runs"] = len(bs) - nb1
     traces = run_storage_harness(chk, bs)
     results = validate_traces("TraceStorage", "TraceStorage.cfg", traces, chk.wd)
     chk.handle_validation(results)
